@@ -34,7 +34,7 @@ Dispatch(e) ==
 Diagnosis(e) ==
     [call |-> call, thrown |-> thrown, before |-> v, live |-> obj,
      expected_if_nothing_threw |-> IF Open THEN Expect(call.c, call.a) ELSE <<>>,
-     expected_result |-> IF Open /\ call.c \in Observers THEN ObsRes(call.c, call.a) ELSE <<>>,
+     expected_result |-> IF Open /\ call.c \in Observers THEN ObsResSet(call.c, call.a) ELSE {},
      allowed_after_throw |-> IF Open /\ call.c \in Mutators THEN AllowedPairs(call.c, call.a) ELSE {}]
 
 TNext ==
